@@ -165,10 +165,22 @@ def check_show_result(ctx, jp):
                 flag = (sb, be[0], be[1])
             if m(c, Call("jmespath::Variable::is_string", Each(("param", 1)))):
                 isstr = (sb, be[0], be[1])
+    if isstr is None:
+        # `match result.as_string() { Some(s) .. }`: the same test through the accessor
+        for sb, sw in br.switches():
+            ve = br.variant_edges(sb)
+            if ve and ve["adt"] == "std::option::Option" and ve["scrutinee"] and all(
+                    m(strip_through(y), ("view", "string", ("param", 1))) or m(strip_through(y), Call("jmespath::Variable::as_string", Each(("param", 1)))) for y in ve["scrutinee"]):
+                some_t, none_t = ve["edges"].get("Some", ve["otherwise"]), ve["edges"].get("None", ve["otherwise"])
+                if some_t != none_t:
+                    isstr = (sb, some_t, none_t)
     ok = flag is not None and isstr is not None and edge_dominates(b, (flag[0], flag[1]), pr[0][0]) and edge_dominates(b, (isstr[0], isstr[1]), pr[0][0])
     # pretty branch reachable exactly from the two false edges
-    ok = ok and pr[0][0] not in reach_avoiding(b, flag[2]) and pr[0][0] not in reach_avoiding(b, isstr[2]) and \
-        tw[0][0] in reach_avoiding(b, flag[2]) and tw[0][0] in reach_avoiding(b, isstr[2]) and tw[0][0] not in reach_avoiding(b, isstr[1])
+    if ok:
+        # the two tests may come in either order (`unquoted && is_string()`, `Some(s) if unquoted`): the inner one is the one tested second
+        inner = isstr if b.dominates(flag[0], isstr[0]) else flag
+        ok = pr[0][0] not in reach_avoiding(b, flag[2]) and pr[0][0] not in reach_avoiding(b, isstr[2]) and \
+            tw[0][0] in reach_avoiding(b, flag[2]) and tw[0][0] in reach_avoiding(b, isstr[2]) and tw[0][0] not in reach_avoiding(b, inner[1])
     ctx.check(ok, rule, "unquoted-only-for-strings", "the raw form is used exactly when --unquoted is set and the result is a string; every other case is pretty JSON", b.span)
     # what is printed raw: as_string(result) payload with "{}\n"
     a = o.of_operand(pr[0][1]["args"][0])
@@ -177,20 +189,46 @@ def check_show_result(ctx, jp):
     wa = [o.of_operand(x) for x in tw[0][1]["args"]]
     ok = ms(wa[0], Call("std::io::stdout")) and wa[1] == {("param", 1)} and tw[0][1]["callee_args"][0] == "&mut std::io::Stdout"
     ctx.check(ok, rule, "pretty-on-stdout", "the JSON form is serde_json::to_writer_pretty(stdout, result)", b.span)
-    clo = jp.closures_of("show_result")
+    # after the JSON text exactly "\n" is written to stdout (a literal, a promoted array or a named constant)
+    def is_newline_bytes(body, terms, depth=0):
+        for x in terms:
+            if x[0] == "promoted":
+                pb = jp.promoted(body.deff, x[1])
+                if pb is None:
+                    # promoted of a closure / helper spliced into this body: look it up by scanning
+                    cands = [q for q in jp.bodies if q.promoted == x[1] and q.deff in ([body.deff] + list(body.j.get("inlined", [])) + list(body.j.get("inlined_closures", [])))]
+                    pb = cands[0] if cands else None
+                if pb is None:
+                    return False
+                okp = False
+                for _, _, st in pb.stmts(reachable_only=False):
+                    if st["k"] == "assign" and st["rv"]["k"] == "agg" and st["rv"]["ak"] == "array" and [op.get("int") for op in st["rv"]["ops"]] == [10]:
+                        okp = True
+                    if st["k"] == "assign" and st["rv"]["k"] == "use" and st["rv"]["op"].get("k") == "const" and st["rv"]["op"].get("val") in ('b"\\n"', "b\"\\n\""):
+                        okp = True
+                if not okp:
+                    return False
+            elif x[0] == "const" and isinstance(x[1], str) and x[1] in ('b"\\n"',):
+                continue
+            elif x[0] == "const" and isinstance(x[1], str) and depth < 2:
+                cb = [q for q in jp.bodies if q.kind == "const" and q.promoted is None and q.deff == x[1]]
+                if len(cb) != 1:
+                    return False
+                vals = [st["rv"]["op"].get("val") for _, _, st in cb[0].stmts(reachable_only=False)
+                        if st["k"] == "assign" and st["rv"]["k"] == "use" and st["rv"]["op"].get("k") == "const"]
+                if not any(v in ('b"\\n"',) for v in vals):
+                    return False
+            else:
+                return False
+        return bool(terms)
+
     nl = False
-    for c in clo:
+    for c in [b] + jp.closures_of("show_result"):
+        co = Origins(c, jp)
         for bb, t in c.calls():
             if t["callee"] == "std::io::Write::write" and t["callee_args"][0] == "std::io::Stdout":
-                co = Origins(c, jp)
-                arg = co.of_operand(t["args"][1])
-                for x in arg:
-                    if x[0] == "promoted":
-                        pb = jp.promoted(c.deff, x[1])
-                        for _, _, s in pb.stmts(reachable_only=False):
-                            if s["k"] == "assign" and s["rv"]["k"] == "agg" and s["rv"]["ak"] == "array" and \
-                                    [op.get("int") for op in s["rv"]["ops"]] == [10]:
-                                nl = True
+                if is_newline_bytes(c, co.of_operand(t["args"][1])):
+                    nl = True
     ctx.check(nl, rule, "trailing-newline", "after the JSON text a single newline byte is written to stdout", b.span)
 
 
